@@ -90,8 +90,10 @@ Verdicts(c, ln) ==
 (* NOT replaced by the default).  A rule is only considered on the subdomain the adapter is bound to: the others are *)
 (* replaced (index preserving) by a rule no path can match.  The bound host is [subdomain "."] server_name.          *)
 DeadSeg == [TrailSeg EXCEPT !.pre = <<SLASH>>]
-EffBindSub(c) == IF c.bind.subk = "d" THEN c.map.dsub ELSE c.bind.subv
-EffRuleSub(c, r) == IF r.subk = "d" THEN c.map.dsub ELSE r.subv
+\* (records written by an older recorder have no subdomain fields: then everything is on the bound subdomain)
+DSub(c) == IF "dsub" \in DOMAIN c.map THEN c.map.dsub ELSE c.bind.sub
+EffBindSub(c) == IF "subk" \in DOMAIN c.bind /\ c.bind.subk = "s" THEN c.bind.subv ELSE DSub(c)
+EffRuleSub(c, r) == IF "subk" \in DOMAIN r /\ r.subk = "s" THEN r.subv ELSE DSub(c)
 Resolve(c) ==
   [c EXCEPT !.bind = [@ EXCEPT !.sub = EffBindSub(c)],
             !.rules = [i \in 1..Len(c.rules) |->
